@@ -80,6 +80,15 @@ func main() {
 			needPkg[l.PkgPath] = true
 		}
 	}
+	// every package that carries a contract file is loaded with syntax (so that its small
+	// functions can be inlined and its contracts type-checked), not only the ones under check
+	if len(needPkg) > 0 {
+		for _, c := range cs.Funcs {
+			if c.PkgPath != "" && strings.HasPrefix(c.PkgPath, repoModule+"/") && c.File != "" && strings.HasPrefix(c.File, *repo) {
+				needPkg[c.PkgPath] = true
+			}
+		}
+	}
 	var pats []string
 	for p := range needPkg {
 		if strings.HasPrefix(p, repoModule+"/") {
